@@ -13,6 +13,22 @@ git -C /repo worktree add -q --detach "$WT" HEAD || exit 2
 trap 'git -C /repo worktree remove --force "$WT" 2>/dev/null' EXIT
 cd "$WT"
 if ! git apply "$PATCH" 2>/dev/null; then echo "$ID-$K RESULT=patch-does-not-apply"; exit 0; fi
+if [ ! -f "$DEMO" ] && [ -f "$S/demo$K/main.go" ]; then
+  # stand-alone demonstration program (exit status non-zero on failure)
+  suite=fail
+  for try in 1 2 3; do
+    if go test -p 4 -vet=off -count=1 ./... >"$WT/.suite.log" 2>&1; then suite=pass; break; fi
+    sleep 7
+  done
+  mkdir -p _seeddemo && cp -r "$S/demo$K" _seeddemo/
+  if timeout 300 go run ./_seeddemo/demo$K >"$WT/.demo_with.log" 2>&1; then with=pass; else with=fail; fi
+  git checkout -q -- .
+  if timeout 300 go run ./_seeddemo/demo$K >"$WT/.demo_without.log" 2>&1; then without=pass; else without=fail; fi
+  rm -rf _seeddemo
+  echo "$ID-$K RESULT suite_with_patch=$suite demo_with_patch=$with demo_without_patch=$without dir=program tests=main"
+  [ "$without" = fail ] && tail -15 "$WT/.demo_without.log"
+  exit 0
+fi
 pkg=$(grep -m1 '^package ' "$DEMO" | awk '{print $2}')
 case "$pkg" in
   cmd|cmd_test) dir=cmd;;
